@@ -57,7 +57,7 @@ const CLASSES: &[&str] = &[
     "recaps-none-recoverable",
 ];
 
-fn hc(thorough: bool) -> HistCheck<'static> {
+pub fn hc(thorough: bool) -> HistCheck<'static> {
     HistCheck {
         focus: "C09",
         profile: profile(thorough),
